@@ -11,6 +11,7 @@ import Crv.Driver.Disk
 import Crv.Driver.Pem
 import Crv.Driver.Chunk
 import Crv.Driver.Loader
+import Crv.Driver.Cache
 open Crv.Driver
 
 /-- One model state per stream kind (DESIGN.md Appendix A). -/
@@ -41,6 +42,7 @@ def stepLine (st : DriverState) (line : String) : DriverState × String :=
   | "pem" :: rest => (st, stepPem rest)
   | "chunk" :: rest => let (s', out) := Chunk.step st.chunk rest; ({ st with chunk := s' }, out)
   | "ld" :: rest => (st, stepLoader rest)
+  | "ct" :: rest => (st, stepCache rest)
   | _ => (st, "bad-op")
 
 partial def loop (h : IO.FS.Stream) (out : IO.FS.Stream) (st : DriverState) : IO Unit := do
